@@ -318,14 +318,21 @@ def run(tier: str, seed: int) -> int:
         n_roles += len(ctx)
         core = ["SetValues", "SetLower", "SetUpper", "SetFixed", "ResetParameters", "Copy", "PrintParse", "Swap"]
         if tier == "quick":
-            plans = [(2, FULL_VAL, FULL_LO, FULL_HI, None)]
+            plans = [(2, FULL_VAL, FULL_LO, FULL_HI, None, None)]
             if not fx:
-                plans.append((3, SMALL_VAL, SMALL_LO, SMALL_HI, core))
+                plans.append((3, SMALL_VAL, SMALL_LO, SMALL_HI, core, None))
             if len(ctx) > 3:
                 ctx = [ctx[(seed + i * len(ctx) // 3) % len(ctx)] for i in range(3)]
         else:
-            plans = [(3, FULL_VAL, FULL_LO, FULL_HI, None), (4, SMALL_VAL, SMALL_LO, SMALL_HI, core)]
-        for h, va, la, ha, en in plans:
+            # every registered role is covered by the length-2 full run; longer histories use a seeded subset of roles
+            plans = [(2, FULL_VAL, FULL_LO, FULL_HI, None, None)]
+            plans.append((3, FULL_VAL, FULL_LO, FULL_HI, None, 4) if not fx else (3, SMALL_VAL, SMALL_LO, SMALL_HI, None, 4))
+            if not fx:
+                plans.append((4, SMALL_VAL, SMALL_LO, SMALL_HI, core, 2))
+        all_roles = ctx
+        for h, va, la, ha, en, nroles in plans:
+            ctx = all_roles if nroles is None or len(all_roles) <= nroles else \
+                [all_roles[(seed + i * len(all_roles) // nroles) % len(all_roles)] for i in range(nroles)]
             res = run_tlc("ElementParams", cfg_text(["x"], shape, fx, va, la, ha, h, 1, True, enabled=en), dump=True, timeout=3600)
             try:
                 v.add_tlc(f"histories shape={shape} fixed={fx} MaxHist={h} args={len(va)}/{len(la)}/{len(ha)} "
@@ -338,6 +345,7 @@ def run(tier: str, seed: int) -> int:
             ctx = ctx[:1]
             h, va, la, ha = 2, SMALL_VAL, SMALL_LO, SMALL_HI
         else:
+            ctx = ctx[:2]
             h, va, la, ha = 2, FULL_VAL, FULL_LO, FULL_HI
         res = run_tlc("ElementParams", cfg_text(["x", "y"], shape, fx, va, la, ha, h, 2, True), dump=True, timeout=3600)
         try:
